@@ -103,8 +103,8 @@ def r3_as_merge(ctx, res):
     v = view(ctx, 'taxonomy', '_synsets_for_pos')
     expect(res, 'a-s-merge', v, [
         ('new', '#1'),
-        ('call', '#1.extend(wordnet.synsets(pos=ADJ_SAT))', ('pos == ADJ',)),
-        ('call', '#1.extend(wordnet.synsets(pos=ADJ))', ('pos == ADJ_SAT',)),
+        ('call', '#1.append($1)', ('pos == ADJ',), ('for wordnet.synsets(pos=ADJ_SAT)',)),
+        ('call', '#1.append($1)', ('pos == ADJ_SAT',), ('for wordnet.synsets(pos=ADJ)',)),
         ('return', '#1'),
     ], 'the synsets of a part of speech are wordnet.synsets(pos=pos), with adjectives and satellite adjectives merged both ways')
     key = 'a-s-merge:base'
@@ -113,7 +113,7 @@ def r3_as_merge(ctx, res):
     if not news or '<wordnet.synsets(pos=pos)>' not in news[0].text:
         res.find(key, v.loc(), '_synsets_for_pos no longer starts from wordnet.synsets(pos=pos)')
     key = 'a-s-merge:nothing-else'
-    others = [r for r in v.rows if r[0] in ('call', 'store', 'aug') and 'extend(wordnet.synsets(pos=ADJ' not in r[1]]
+    others = [r for r in v.rows if r[0] in ('call', 'store', 'aug') and not (r[1] == '#1.append($1)' and r[3] and 'wordnet.synsets(pos=ADJ' in r[3][0])]
     res.inst(key, v.loc(), f'{len(others)} other effects')
     for r in others:
         res.find(key, v.loc(r[4]), f'_synsets_for_pos also does `{r[1][:80]}`')
